@@ -38,6 +38,8 @@ func init() {
 	families["big_stored"] = genBigStored
 	families["pool_wrap"] = genPoolWrap
 	families["big_dv"] = genBigDv
+	families["twin_persist"] = genTwinPersist
+	families["adv_boundary"] = genAdvBoundary
 	families["big_freq"] = genBigFreq
 	families["giant_posting"] = genGiantPosting
 	families["pool_vocab"] = genPoolVocab
@@ -707,6 +709,15 @@ func genDvSmall(r *rand.Rand, i int) Scenario {
 		sc.Ops = append(sc.Ops, Op{Op: "dv_open", Seg: seg, R: k + 1, Fields: fs})
 		for j := 0; j < 10; j++ {
 			sc.Ops = append(sc.Ops, Op{Op: "dv_visit", R: k + 1, N: r.Intn(12)})
+		}
+	}
+	// ONE field list (the caller's slice object is the same for every call, see doDvOpen) for a reader on every
+	// segment in turn, starting with the segment that lacks the list's leading fields
+	one := append([]string{"nope"}, cfg.Fields...)
+	for k, seg := range []int{2, 1, 3, 2} {
+		sc.Ops = append(sc.Ops, Op{Op: "dv_open", Seg: seg, R: 10 + k, Fields: one})
+		for j := 0; j < 6; j++ {
+			sc.Ops = append(sc.Ops, Op{Op: "dv_visit", R: 10 + k, N: r.Intn(8)})
 		}
 	}
 	return sc
@@ -2180,6 +2191,18 @@ func genPoolVocab(r *rand.Rand, i int) Scenario {
 		return Batch{append(doc, fi)}
 	}
 	huge, medium, small := mk(10500+r.Intn(3000), 1), mk(2500+r.Intn(2500), 2), mk(5+r.Intn(30), 3)
+	if i%4 == 1 {
+		// two vocabularies beyond 32 768 postings lists on one recycled builder (with a small build in between); in
+		// the second one the lists past 32 768 belong to a second document only
+		huge = mk(33000+r.Intn(800), 1)
+		first := mk(32800+r.Intn(100), 2)
+		second := mk(400+r.Intn(400), 4)
+		second[0][0] = FieldInst{Name: "_id", Len: 1, Stored: true, Value: B([]byte("w")), Terms: []TermOcc{{Term: B([]byte("w")), Freq: 1, Locs: []Loc{}}}}
+		for k := range second[0][1].Terms {
+			second[0][1].Terms[k].Term = append(Bytes{'z', 'z'}, second[0][1].Terms[k].Term...) // no term of the first document
+		}
+		medium = Batch{first[0], second[0]}
+	}
 	sc := Scenario{Name: fmt.Sprintf("pool_vocab-%d", i), NormKind: "code", Universe: []string{"_id", "a"}, Batches: []Batch{huge, medium, small},
 		Tags: []string{"pool_vocab"}}
 	mode := []uint32{0, 1024, 2}[i%3]
